@@ -180,6 +180,7 @@ pub fn check(o: &CheckOpts) -> i32 {
         let samples = samples.clone();
         let prof = prof.clone();
         let prop = o.prop.clone();
+        let thorough = o.tier == "thorough";
         let (seed, runs, cap) = (o.seed, o.runs, o.wall_cap_s);
         let known_sigs = known_sigs.clone();
         handles.push(std::thread::spawn(move || {
@@ -193,7 +194,17 @@ pub fn check(o: &CheckOpts) -> i32 {
                     capped.store(true, Ordering::SeqCst);
                     break;
                 }
-                let out = match std::panic::catch_unwind(std::panic::AssertUnwindSafe(|| run_one(seed, i, &prof, enabled, i < 3))) {
+                // thorough tier: every fourth run borrows another property's profile (round-robin
+                // over the run index), so this property's oracles also see migrations, bulk books,
+                // admin-heavy traffic ... that its own profile makes rare
+                let borrowed;
+                let use_prof: &Profile = if thorough && i % 4 == 3 {
+                    borrowed = Profile::for_property(PROPS[((i / 4) % PROPS.len() as u64) as usize]);
+                    &borrowed
+                } else {
+                    &prof
+                };
+                let out = match std::panic::catch_unwind(std::panic::AssertUnwindSafe(|| run_one(seed, i, use_prof, enabled, i < 3))) {
                     Ok(o) => o,
                     Err(_) => {
                         eprintln!(
@@ -488,4 +499,52 @@ pub fn determinism(prop: &str, seed: u64, runs: u64, jobs: usize) -> i32 {
         println!("{} {:016x} {} {}", i, h, n, v);
     }
     0
+}
+
+
+/// One pass with every oracle and probe enabled under each given profile: which properties'
+/// statements are contradicted by what the runs observe (cross-property view of a change).
+pub fn tags(profiles: &[String], seed: u64, runs: u64, jobs: usize) -> i32 {
+    use crate::sim::enabled_all;
+    let mut found: BTreeMap<String, BTreeMap<String, u64>> = BTreeMap::new();
+    for pname in profiles {
+        let prof = Profile::for_property(pname);
+        let next = Arc::new(AtomicU64::new(0));
+        let res: Arc<Mutex<Vec<Violation>>> = Arc::new(Mutex::new(vec![]));
+        let mut hs = vec![];
+        for _ in 0..jobs {
+            let next = next.clone();
+            let res = res.clone();
+            let prof = prof.clone();
+            hs.push(std::thread::spawn(move || loop {
+                let i = next.fetch_add(1, Ordering::SeqCst);
+                if i >= runs {
+                    break;
+                }
+                let out = run_one(seed, i, &prof, enabled_all(), false);
+                if out.violation.is_some() {
+                    let mut g = res.lock().unwrap();
+                    for v in out.all_in_step {
+                        g.push(v);
+                    }
+                }
+            }));
+        }
+        for h in hs {
+            if h.join().is_err() {
+                return 2;
+            }
+        }
+        for v in res.lock().unwrap().iter() {
+            for p in &v.props {
+                *found.entry(p.clone()).or_default().entry(v.oracle.clone()).or_insert(0) += 1;
+            }
+        }
+    }
+    println!("{}", serde_json::to_string(&found).unwrap());
+    if found.is_empty() {
+        0
+    } else {
+        1
+    }
 }
